@@ -1,7 +1,7 @@
 """C13 — keys: pubkey derivation, WIF round trip, ECDSA sign/verify match secp256k1."""
 from hypothesis import strategies as st
 
-from ..runner import Violation, digest
+from ..runner import Violation, digest, unexpected, REPO
 from ..ref import secp, b58, compact as RC
 from .. import libx
 
@@ -167,7 +167,7 @@ def check_pubvalid(case):
 
 
 def check_case(case):
-    return {'key': check_key, 'sign': check_sign, 'verify': check_verify, 'pubvalid': check_pubvalid}[case['kind']](case)
+    return {'key': check_key, 'sign': check_sign, 'verify': check_verify, 'pubvalid': check_pubvalid, 'env': check_env}[case['kind']](case)
 
 
 secrets = st.one_of(st.sampled_from([1, 2, 3, n - 1, n - 2, 1 << 255, 0xff, 1 << 8, 1 << 200, 0x0101]),
@@ -247,7 +247,62 @@ def s_pub(draw):
     return {'kind': 'pubvalid', 'pub': b.hex(), 'cls': k}
 
 
+def check_env(case):
+    """the same small set of facts (derivation, signing, verification of a fixed RFC 6979 signature, WIF) in other execution
+    environments of the same interpreter: a worker thread, an interpreter started with -O (assert statements stripped), and
+    through a public key whose private-key object has been garbage-collected"""
+    import gc, subprocess, sys, threading
+    x = case['secret']
+    P = secp.mul(x, secp.G)
+    z = bytes.fromhex(case['digest'])
+    r, s_ = secp.sign(x, z)
+    der = secp.der(r, s_)
+    want_pub = secp.ser_pub(P, True)
+    # (a) public key outliving its private key object
+    pub = _lib_key(x, True).pub
+    gc.collect()
+    junk = [_lib_key(x + i + 1, True) for i in range(3)]
+    del junk
+    gc.collect()
+    if bytes(pub) != want_pub or libx.call('verify-orphan-pub', pub.verify, z, der)[1] is not True:
+        raise Violation('env/pub-after-key-collected', 'a public key taken from a private key that has since been collected no longer verifies')
+    # (b) a worker thread
+    res = {}
+
+    def work():
+        try:
+            k = CBitcoinSecret.from_secret_bytes(x.to_bytes(32, 'big'), True)
+            sig = k.sign(z)
+            res['ok'] = bytes(k.pub) == want_pub and k.pub.verify(z, sig) is True and k.pub.verify(z, der) is True and secp.parse_der_strict(sig) is not None
+        except Exception as e:
+            res['exc'] = e
+    th = threading.Thread(target=work)
+    th.start()
+    th.join()
+    if 'exc' in res:
+        raise unexpected('env/thread', res['exc'])
+    if not res.get('ok'):
+        raise Violation('env/thread-wrong', 'derivation / signing / verification give another result in a worker thread')
+    # (c) python -O
+    if case.get('opt'):
+        prog = ('import sys; sys.path.insert(0, %r)\n'
+                'from bitcoin.wallet import CBitcoinSecret\n'
+                'k = CBitcoinSecret.from_secret_bytes(bytes.fromhex(%r), True)\n'
+                'z = bytes.fromhex(%r); sig = k.sign(z)\n'
+                'print(bytes(k.pub).hex(), k.pub.verify(z, sig), k.pub.verify(z, bytes.fromhex(%r)), str(k))\n') % (
+                    REPO, x.to_bytes(32, 'big').hex(), z.hex(), der.hex())
+        out = subprocess.run([sys.executable, '-O', '-B', '-c', prog], capture_output=True, text=True, timeout=120)
+        want_line = '%s True True %s' % (want_pub.hex(), b58.check_encode(128, x.to_bytes(32, 'big') + b'\x01'))
+        if out.returncode != 0 or out.stdout.strip() != want_line:
+            raise Violation('env/python-O', 'under python -O: rc=%d output %r stderr %r, expected %r' % (out.returncode, out.stdout.strip()[:120], out.stderr[-200:], want_line[:120]))
+    return {'nt': True, 'evals': 3, 'cls': ['env']}
+
+
 def t_keys(ctx):
+    if ctx.shard == 0:
+        for i, x in enumerate([1, 2, 0x0101, n - 1, 12345678901234567890, 122]):
+            ctx.run({'kind': 'env', 'secret': x, 'digest': ('%064x' % ((x * 7 + 5) % 2 ** 256)), 'opt': i < 2})
+        ctx.exhaustive.append('6 secrets through a worker thread, an orphaned public key and (2 of them) an interpreter started with -O')
     ctx.hyp(s_key(), ctx.n(500, 5000))
     # every secret 1..N and n-N..n-1 in both encodings (one key in 256 has a y coordinate, one in 256 an x coordinate, with a
     # leading zero byte; one in 65,536 with two): the fixed-width encodings must keep their leading zeros
